@@ -280,9 +280,12 @@ impl Chunk for MwmoChunk {
             return Ok(Self::new());
         }
 
-        // Read all data
-        let mut data = vec![0u8; size];
-        reader.read_exact(&mut data)?;
+        // Read all data. The declared size is untrusted: read up to it instead of allocating it up front
+        let mut data = Vec::new();
+        reader.by_ref().take(size as u64).read_to_end(&mut data)?;
+        if data.len() != size {
+            return Err(std::io::Error::from(std::io::ErrorKind::UnexpectedEof).into());
+        }
 
         // Split by null terminators
         let mut filenames = Vec::new();
@@ -409,7 +412,8 @@ impl Chunk for ModfChunk {
         }
 
         let count = size / 64;
-        let mut entries = Vec::with_capacity(count);
+        // The declared size is untrusted: cap the up-front reservation
+        let mut entries = Vec::with_capacity(count.min(1024));
 
         for _ in 0..count {
             let mut buf = [0u8; 4];
